@@ -272,6 +272,7 @@ func pairwise() []cworld.Opts {
 		{3, func(o *cworld.Opts, i int) { o.RenewLifetime = []time.Duration{0, time.Hour, 7 * 24 * time.Hour}[i] }},
 		{2, func(o *cworld.Opts, i int) { o.TicketLifetime = []time.Duration{10 * time.Minute, 24 * time.Hour}[i] }},
 		{2, func(o *cworld.Opts, i int) { o.FAST = i == 1 }},
+		{2, func(o *cworld.Opts, i int) { o.FreshRenewKey = i == 1 }},
 	}
 	type pair struct{ a, va, b, vb int }
 	uncovered := map[pair]bool{}
@@ -346,7 +347,7 @@ func pairwise() []cworld.Opts {
 }
 
 func optsName(o cworld.Opts) string {
-	return fmt.Sprintf("%s/et%v/pa-%s/fwd%v/prx%v/canon%v/renew%v/life%v/fast%v", o.Cred, o.ETypes, o.PreAuth, o.Forwardable, o.Proxiable, o.Canonicalize, o.RenewLifetime, o.TicketLifetime, o.FAST)
+	return fmt.Sprintf("%s/et%v/pa-%s/fwd%v/prx%v/canon%v/renew%v/life%v/fast%v/freshkey%v", o.Cred, o.ETypes, o.PreAuth, o.Forwardable, o.Proxiable, o.Canonicalize, o.RenewLifetime, o.TicketLifetime, o.FAST, o.FreshRenewKey)
 }
 
 // bfs explores histories for one configuration.
@@ -424,6 +425,9 @@ func Run(c *engine.Ctx) {
 	r := cworld.DefaultOpts()
 	r.RenewLifetime, r.TicketLifetime, r.Forwardable = time.Hour, 10*time.Minute, true
 	deep = append(deep, r)
+	r2 := r
+	r2.FreshRenewKey = true
+	deep = append(deep, r2)
 	for _, o := range deep {
 		s, t, e := bfs(c, o, depthDefault, maxStates)
 		states, transitions, exh = states+s, transitions+t, exh && e
@@ -443,7 +447,7 @@ func Run(c *engine.Ctx) {
 	c.Add("transitions", transitions)
 	c.Add("evaluations", transitions)
 	c.Add("traces_validated_against_impl", transitions)
-	c.Cov["rule"] = "explicit-state BFS over histories on alphabet {login, ticket(s1|s2|other-realm service), advance(+1s | next timer | earliest ticket end -1s/+1s | TGT end +1s | renew-till +1s), destroy}: depth 5 (7 thorough) on two configurations, depth 3 (4) on a pairwise-covering set of configurations over 9 settings; referral chains of length 0..12 and a 3-realm referral cycle, against the strict KDC and against KDCs tolerating the known authenticator-crealm finding; canonical state = sessions, cache entries and pending timers relative to the clock; distinct = canonical states"
+	c.Cov["rule"] = "explicit-state BFS over histories on alphabet {login, ticket(s1|s2|other-realm service), advance(+1s | next timer | earliest ticket end -1s/+1s | TGT end +1s | renew-till +1s), destroy}: depth 5 (7 thorough) on three configurations (default; renewable short-lived with the KDC keeping / replacing the session key on renewal), depth 3 (4) on a pairwise-covering set of configurations over 10 settings; referral chains of length 0..12 and a 3-realm referral cycle, against the strict KDC and against KDCs tolerating the known authenticator-crealm finding; canonical state = sessions, cache entries and pending timers relative to the clock; distinct = canonical states"
 }
 
 // referralChains: chains within the bound succeed with a ticket of the last realm, longer ones and cycles fail
